@@ -99,6 +99,9 @@ def run(ctx):
     ctx.floor("E7.from_bytes", "checked from_bytes call sites", len(fbs), 1)
     # 3. serde
     C.check_serde_with_pairs(ctx, P, rule="E9.serde")
+    from .c15 import check_fixed_hex_reader
+
+    check_fixed_hex_reader(ctx, P)
     # 4. shares validated at use
     ag = call_sites(P, lambda c, t: c.get("name") == "as_group_element" and c.get("trait") == "Share")
     cg = call_sites(P, lambda c, t: c.get("name") == "combine_shares_group")
